@@ -785,7 +785,13 @@ func c01CheckQueryOn(r *vrt.Run, t string, wire []byte, req *dns.Msg, res c01Res
 	}
 	m := obs.Msgs[0]
 	got := c01TupleOf(m)
-	r.State(t + "|" + vdns.Canon(m, true) + "|" + vdns.OPTString(m))
+	stateMsg := m
+	if ignoreID {
+		// The ID is the server's random choice.
+		stateMsg = m.Copy()
+		stateMsg.Id = 0
+	}
+	r.State(t + "|" + vdns.Canon(stateMsg, true))
 	if m.Truncated {
 		class("truncated")
 		datagram := t == "udp" || t == "dnscrypt-udp"
